@@ -27,7 +27,11 @@ CONSTANTS Acct,      \* local key-controlled accounts (strings)
           MaxIn,     \* bound: packets received per channel
           InitFx, InitCoin, InitErc,   \* initial holdings per account: FX coin, T coin, T ERC-20
           InitEsc,   \* FX escrowed per channel at the start (left earlier)
-          InitPool   \* T vouchers parked per channel at the start (arrived earlier)
+          InitPool,  \* T vouchers parked per channel at the start (arrived earlier)
+          Form,      \* receiver forms of inbound packets, subset of {"bech", "hex"}
+          Dn,        \* denom classes of inbound packets, subset of {"fx", "tb", "t1", "vx"}:
+                     \*   FX coming home / bridged alias of T / registered voucher V / unknown voucher
+          Memo       \* memo classes, subset of {"none", "junk", "good", "goodAs", "bad"}
 
 VARIABLES coin,   \* [Tok -> [Acct -> Nat]]   bank balances (FX, T base coin)
           erc,    \* [Acct -> Nat]            ERC-20 balance of T
@@ -49,9 +53,6 @@ svars == <<coin, erc, other, nseq, out, rel, relx, nin, ack, esc, pool, vrc, vpo
 vars  == <<svars, op>>
 
 Tok   == {"FX", "T"}
-Form  == {"bech", "hex"}
-Dn    == {"fx", "tb", "t1", "vx"}   \* FX coming home / bridged alias of T / registered voucher V / unknown voucher
-Memo  == {"none", "junk", "good", "goodAs", "bad"}
 Calls == {"good", "goodAs"}          \* memo calls that succeed (goodAs: the packet names a LOCAL account as sender)
 SeqNo == 1..(MaxSeq + 1)             \* one beyond the bound: the frontier state is still printed and replayed
 InNo  == 1..(MaxIn + 1)
